@@ -287,6 +287,38 @@ func guidePos(seq [][]int, pos int, c curCall) int {
 
 var skipRead = rand.New(rand.NewSource(7))
 
+// curScriptIdx >= 0: the next cursor walk follows that scripted walk instead of the covering random walk
+var curScriptIdx = -1
+
+// walks for containers of thousands of elements: from the far end backwards, a long run forwards without looking and a
+// jump back to the start, runs that cross every level / node / chunk boundary, searches from the middle
+func hugeCursorScripts(rev bool) [][]curCall {
+	rep := func(op string, n int) []curCall {
+		var out []curCall
+		for i := 0; i < n; i++ {
+			out = append(out, curCall{op: op})
+		}
+		return out
+	}
+	cat := func(parts ...[]curCall) []curCall {
+		var out []curCall
+		for _, p := range parts {
+			out = append(out, p...)
+		}
+		return out
+	}
+	one := func(op string) []curCall { return rep(op, 1) }
+	vm := func(op string, m, r int) []curCall { return []curCall{{op: op, p: pred{Name: "valmod", M: m, R: r}}} }
+	if !rev {
+		return [][]curCall{cat(rep("Next", 1300), one("First"), rep("Next", 8), one("Begin"), rep("Next", 2)),
+			cat(rep("Next", 600), vm("NextTo", 97, 5), rep("Next", 700), one("Begin"), rep("Next", 3))}
+	}
+	return [][]curCall{
+		cat(one("End"), rep("Prev", 900), rep("Next", 5), one("Begin"), rep("Next", 4)),
+		cat(rep("Next", 1300), one("First"), rep("Next", 8), one("Last"), rep("Prev", 700), rep("Next", 3), one("End"), rep("Prev", 3)),
+		cat(rep("Next", 600), vm("NextTo", 97, 5), rep("Prev", 40), vm("PrevTo", 89, 3), rep("Next", 1000), one("Last"), rep("Prev", 2), one("Begin"), rep("Next", 3))}
+}
+
 func cursorWalk(j *jobCtx, x Inst, maxSteps int) { cursorWalkAt(j, x, maxSteps, -1) }
 
 // at >= 0: the iterator is created with RedBlackTree.IteratorAt(GetNode(key at position `at`))
@@ -325,22 +357,36 @@ func cursorWalkAt(j *jobCtx, x Inst, maxSteps int, at int) {
 	covered := map[[2]int]bool{}
 	total := (n + 2) * len(calls)
 	pos := at
-	for step := 0; step < maxSteps && len(covered) < total; step++ {
-		// prefer a call not yet taken from this position; else move at random
-		pick := -1
-		off := j.r.Intn(len(calls))
-		for k := range calls {
-			ci := (k + off) % len(calls)
-			if !covered[[2]int{pos, ci}] {
-				pick = ci
+	var script []curCall
+	if ss := hugeCursorScripts(cur.reverse); curScriptIdx >= 0 && curScriptIdx < len(ss) {
+		script = ss[curScriptIdx]
+	}
+	curScriptIdx = -1
+	for step := 0; step < maxSteps && (len(covered) < total || script != nil); step++ {
+		var c curCall
+		if script != nil {
+			// a scripted walk: long runs in one direction, jumps in the middle of a run
+			if step >= len(script) {
 				break
 			}
+			c = script[step]
+		} else {
+			// prefer a call not yet taken from this position; else move at random
+			pick := -1
+			off := j.r.Intn(len(calls))
+			for k := range calls {
+				ci := (k + off) % len(calls)
+				if !covered[[2]int{pos, ci}] {
+					pick = ci
+					break
+				}
+			}
+			if pick < 0 {
+				pick = j.r.Intn(len(calls))
+			}
+			covered[[2]int{pos, pick}] = true
+			c = calls[pick]
 		}
-		if pick < 0 {
-			pick = j.r.Intn(len(calls))
-		}
-		covered[[2]int{pos, pick}] = true
-		c := calls[pick]
 		var ret, has bool
 		var a, b int
 		e := ev(Ev{"op": c.op, "rs": 0, "p": c.p})
@@ -418,6 +464,7 @@ func jobCursor(j *jobCtx) {
 		return b
 	}
 	ctr := 0
+	hugeDone := map[string]bool{}
 	var us []Universe
 	for _, k := range kindsOf["cur"] {
 		if !j.want(k) {
@@ -496,6 +543,37 @@ func jobCursor(j *jobCtx) {
 		}
 		if big != nil {
 			paths = append(paths, big)
+		}
+		// first (fixed cost): one state of thousands of elements per kind, scripted walks and one covering walk
+		if !hugeDone[x0.Kind()] {
+			hugeDone[x0.Kind()] = true
+			hp := hugeStatePath(x0)
+			if h, ok := x0.(*heapInst); ok { // levels of more than a thousand elements
+				hp = nil
+				vs := make([]int, 3000)
+				for i := range vs {
+					vs[i] = 10*((i*37)%293) + i%10
+				}
+				if h.h != nil {
+					hp = append(hp, Call{Op: "Push", Vs: vs})
+				} else {
+					for _, v := range vs {
+						hp = append(hp, Call{Op: "Enqueue", Vs: []int{v}})
+					}
+				}
+			}
+			if hp != nil {
+				var x Inst
+				gi := guard("cur", x0.Kind(), "Build", func() { x = replay(u, hp) })
+				if !gi.Panic && x != nil {
+					j.states++
+					for si := 0; si < 3; si++ {
+						curScriptIdx = si
+						cursorWalk(j, x, 4000)
+					}
+					cursorWalk(j, x, 120)
+				}
+			}
 		}
 		for _, p := range paths {
 			if budgetExceeded() {
